@@ -2,6 +2,7 @@ package cctfe
 
 import (
 	"bytes"
+	"context"
 	"crypto/sha256"
 	stdx509 "crypto/x509"
 	"crypto/x509/pkix"
@@ -9,12 +10,15 @@ import (
 	"encoding/json"
 	"fmt"
 	"math/big"
+	"net/http"
 	"os"
 	"sort"
 	"testing"
 	"time"
 
 	ct "github.com/google/certificate-transparency-go"
+	"github.com/google/certificate-transparency-go/client"
+	"github.com/google/certificate-transparency-go/jsonclient"
 	"github.com/google/certificate-transparency-go/trillian/ctfe/cache"
 	"github.com/google/certificate-transparency-go/trillian/ctfe/cache/lru"
 	"github.com/google/certificate-transparency-go/trillian/ctfe/cache/noop"
@@ -304,6 +308,11 @@ func TestShapes(t *testing.T) {
 			t.Fatal(err)
 		}
 		be := env.Backend
+		// the library's own client (the second observation point of the decoding clause), in process
+		lc, err := client.New("http://log.test"+env.Prefix, &http.Client{Transport: instTransport{env}}, jsonclient.Options{PublicKeyDER: env.KeyDER})
+		if err != nil {
+			t.Fatal(err)
+		}
 		w := &World{Env: env, Base: env.Clock.Now(), rng: vh.Rand(int64(gi))}
 		type made struct {
 			c        ShapeCase
@@ -463,7 +472,9 @@ func TestShapes(t *testing.T) {
 				}
 			}
 			if at < 0 {
-				t.Fatalf("harness: submission %s not sequenced", c.fp())
+				// every accepted submission was sequenced above, so the leaf is in the tree - under another identity
+				viol("identity", "the accepted submission is not in the backend under the SHA-256 of the submitted leaf certificate (the identity the property names for de-duplication): the front end queued it under another LeafIdentityHash")
+				continue
 			}
 			wantLeaf := m.sub.ExpectedLeaf(m.ts)
 			wantExtra := m.sub.ExpectedExtra()
@@ -501,6 +512,21 @@ func TestShapes(t *testing.T) {
 				viol("decode", fmt.Sprintf("ct.LogEntryFromLeaf recovers nothing from the served entry: %v", err))
 				rep.Eval("")
 				continue
+			}
+			// ... and through client.LogClient.GetEntries: the same entry, not an empty slot, whatever non-fatal
+			// remarks the certificate parser has about it
+			if es, err := lc.GetEntries(context.Background(), int64(at), int64(at)); err != nil || len(es) != 1 {
+				viol("client-getentries", fmt.Sprintf("client.LogClient.GetEntries(%d,%d) of the served entry: %d entries, %v", at, at, len(es), err))
+			} else {
+				var got []byte
+				if es[0].X509Cert != nil {
+					got = es[0].X509Cert.Raw
+				} else if es[0].Precert != nil {
+					got = es[0].Precert.Submitted.Data
+				}
+				if !bytes.Equal(got, m.sub.Chain[0]) || es[0].Index != int64(at) || es[0].Leaf.TimestampedEntry == nil || es[0].Leaf.TimestampedEntry.Timestamp != m.ts || len(es[0].Chain) != len(le.Chain) {
+					viol("client-getentries", fmt.Sprintf("client.LogClient.GetEntries(%d,%d) does not recover the submitted (pre)certificate, its chain, index and timestamp (what ct.LogEntryFromLeaf recovers from the same bytes)", at, at))
+				}
 			}
 			var gotCert, gotIKH, gotIssuer []byte
 			wantType := ct.X509LogEntryType
